@@ -107,7 +107,7 @@ def self_test(pid):
     import shutil
     import tempfile
     out = []
-    limit = int(os.environ.get('VERIF_SELFTEST_MAX', '3'))      # keeps the thorough tier within minutes; all kept changes are
+    limit = int(os.environ.get('VERIF_SELFTEST_MAX', '2'))      # keeps the thorough tier within minutes; all kept changes are
     done = 0                                                    # re-checked by seeded/recheck.sh
     for d in sorted(glob.glob(os.path.join(VERIF, 'seeded', pid + '-*'))):
         patch = os.path.join(d, 'patch.diff')
